@@ -55,6 +55,10 @@ def main():
     ids = sys.argv[1:] or sorted(os.listdir(sd))
     budget = os.environ.get("SENS_BUDGET")
     rows = []
+    merged = None
+    if sys.argv[1:] and os.environ.get("SENS_MERGE"):
+        # re-measure the given changes only and replace their rows in the existing table (top-level extras are kept)
+        merged = json.load(open(os.path.join(V, "evidence", "sensitivity.json")))
     for sid in ids:
         mp = os.path.join(sd, sid, "meta.json")
         if not os.path.exists(mp):
@@ -69,8 +73,19 @@ def main():
             row["why_not"] = meta.get("history")
         print(f"{sid}: {'CAUGHT' if own.get('caught') else ('caught by ' + anyc[0] if anyc else 'MISSED')} {meta['property']} "
               f"{(row['checks'][anyc[0]].get('first_clause') if anyc else '') or row.get('error', '')}"[:260], flush=True)
-        write(rows)
+        if merged is None:
+            write(rows)
+    if merged is not None:
+        new = {r["seeded"]: r for r in rows}
+        for r in new.values():
+            r["remeasured"] = "later than the full table, at /repo " + sh(["git", "-C", "/repo", "rev-parse", "--short", "HEAD"]).stdout.strip()
+        extras = {k: v for k, v in merged.items() if k in ("second_attempts_for_misses_at_15s", "note")}
+        rows = [new.pop(r["seeded"], r) for r in merged["rows"]] + list(new.values())
+        rows.sort(key=lambda r: r["seeded"])
     doc = write(rows)
+    if merged is not None:
+        doc.update(extras)
+        json.dump(doc, open(os.path.join(V, "evidence", "sensitivity.json"), "w"), indent=1)
     print(f"caught by the property's own check {doc['caught']}, by some check {doc['caught_by_some_check']} of {doc['total']}")
 
 
